@@ -36,7 +36,8 @@ def cases(draw, tier):
     repeat = draw(st.integers(0, 5)) == 0
     # what the caller hands over: private copies, the host's own live inputs / outputs list, or (two-number adders)
     # one and the same list object for both numbers
-    case['alias'] = draw(st.sampled_from([None, None, None, 'inputs', 'outputs', 'same_object', 'same_object']))
+    case['alias'] = draw(st.sampled_from([None, None, None, 'inputs', 'outputs', 'same_object', 'same_object']
+                                         if kind in ('add_two_numbers', 'add_two_numbers_shift') else [None, None, 'inputs', 'outputs']))
     case['hand'] = draw(st.sampled_from(arith.HAND_STYLES))
     if kind in ('add_two_numbers', 'add_two_numbers_shift'):
         # mostly short numbers, sometimes one or both long: lopsided lengths are where shifted adders go wrong
